@@ -740,6 +740,24 @@ func (r *c11Run[K, V]) checkOne(ops []c11Op, sn *c11Snap[K, V], target int, elap
 		r.res.Sample(map[string]any{"ops": c11Ops(ops), "saved": r.show(sn, 0), "elapsed": time.Duration(elapsed).String(), "target": target, "loaded": r.show(ln, 0)})
 	}
 
+	// ---- keyed access: every restored, unexpired entry is found under its key (the snapshot above walks the policy
+	// lists and the shard maps; a Get goes through the key's hash and shard, as a user's would) ----
+	{
+		now := n.timerwheel.clock.NowNano()
+		for ri := range ln.reg {
+			for _, le := range ln.reg[ri] {
+				if le.exp != 0 && le.exp <= now+int64(time.Second) {
+					continue
+				}
+				v, ok := n.Get(le.k)
+				if !ok || !r.ty.veq(v, le.v) {
+					bad("restored-entry-not-found-by-key", "region="+c11RegName[ri],
+						fmt.Sprintf("key %v is resident after the load (region %s, value %s) but Get returns found=%v value %s", le.k, c11RegName[ri], r.ty.vid(le.v), ok, r.ty.vid(v)), 0)
+				}
+			}
+		}
+	}
+
 	// ---- later maintenance reclaims what is due ----
 	// Entries with < 55 s left belong on the finest wheel level, where the reclaim bound (deadline + one 2^30 ns
 	// tick) holds even in the presence of the C04 coarse-level lateness. Drive: the first 1 s tick after the
@@ -832,6 +850,19 @@ func (r *c11Run[K, V]) explore() {
 			for i := 0; i < n; i++ {
 				root = append(root, c11Op{Kind: "get", Key: i})
 			}
+		}
+	}
+	// hot/grow: the first `hot` keys are read (promoted to the protected region), then the cache grows by `grow` more
+	// keys - past the next sketch table size, which re-allocates the table: protected entries whose frequency
+	// history is gone (sketch estimate 0) at save time
+	if h := env.Int("hot", 0); h > 0 {
+		for rep := 0; rep < 2; rep++ {
+			for i := 0; i < h; i++ {
+				root = append(root, c11Op{Kind: "get", Key: i})
+			}
+		}
+		for i := 0; i < env.Int("grow", 0); i++ {
+			root = append(root, c11Op{Kind: "set", Key: cfg.Prefix + i, Cost: cfg.Costs[0], TTL: cfg.TTLs[0]})
 		}
 	}
 	// Sharding: every shard runs the whole (cheap) search so that deduplication is exact; the expensive part,
